@@ -58,7 +58,10 @@ func sigCred(c string) string {
 	if c == "" {
 		return "none"
 	}
-	return c
+	if strings.Contains(c, "+") {
+		return "multi" // several credentials presented at once (histories, fuzz): detail has them
+	}
+	return strings.TrimSuffix(c, "-nearmiss")
 }
 
 type judge struct {
@@ -68,6 +71,7 @@ type judge struct {
 	recent   []string
 	replay   func(sp *reqSpec) any
 	sampled  map[string]bool
+	flapping bool // the key configuration changes concurrently (no stable "configured" list)
 }
 
 func (j *judge) brief() worldBrief {
@@ -97,6 +101,14 @@ func (j *judge) run(sp *reqSpec) (*obs, expectation) {
 }
 
 func (j *judge) violation(sig, what string, sp *reqSpec, e expectation, o *obs) {
+	if !j.flapping && strings.Contains(e.Cred, "bearer") || !j.flapping && strings.Contains(e.Cred, "basic") {
+		// safety net: if the option no longer holds what the harness configured (and awaited),
+		// the mismatch is not the permission check's: portbase rewrote the option itself
+		if cur, want := strings.Join(j.w.keysGetSafe(), "\n"), strings.Join(cfgStrings(j.w.configured), "\n"); cur != want {
+			sig = "C12:key-config-overwritten:not-by-caller"
+			what = fmt.Sprintf("the core/apiKeys option holds %q, the last awaited configuration was %q; consequence: %s", cur, want, what)
+		}
+	}
 	c := cell{Spec: sp, World: j.brief(), Expect: e, Obs: o, Recent: append([]string{}, j.recent...)}
 	if j.replay != nil {
 		c.Replay = j.replay(sp)
@@ -109,10 +121,20 @@ func (j *judge) check(sp *reqSpec, e expectation, o *obs) bool {
 	b := j.b
 	b.Eval(1)
 	j.remember(sp, o)
+	if sp.Target.Route == "endpoint" && sp.Method == "OPTIONS" && o.Invoked == 0 && o.Status == 204 {
+		// An Endpoint answers OPTIONS itself with 204 (before the endpoint function): the
+		// 204 is produced by the invoked handler — no refusal path answers 204 — so it
+		// counts as "the handler ran"; which token it saw cannot be observed.
+		o.Invoked, o.Kind, o.TokUnseen = 1, "endpoint-options-204", true
+	}
 	dk := declKind(sp.Target, e.Class)
 	b.Count("stage:"+e.Stage, 1)
 	b.Seen("cred_classes", e.Cred)
-	b.Count("cred:"+e.Cred, 1)
+	if strings.Contains(e.Cred, "+") {
+		b.Count("cred_combinations", 1) // several credentials presented at once (histories, fuzz)
+	} else {
+		b.Count("cred:"+e.Cred, 1)
+	}
 	b.Seen("decl_kinds", dk)
 	b.Seen("method_variants", methodVariant(sp))
 	b.Seen("origin_classes", e.OriginCls)
@@ -189,6 +211,7 @@ func (j *judge) check(sp *reqSpec, e expectation, o *obs) bool {
 	// O4: the token the handler sees is what the credential grants
 	if o.Invoked > 0 && e.Invoke != triMustNot {
 		switch {
+		case o.TokUnseen:
 		case o.TokNil || o.Tok == nil:
 			ok = false
 			j.violation("C12:token-missing:"+cred, "handler ran without an AuthToken on the request", sp, e, o)
